@@ -849,7 +849,7 @@ class C15(PropBase):
             for n_, (i, line, r) in enumerate(zip(idx, lines, res)):
                 compared += 1
                 view = line.split("\t")[1]
-                mview, ok, mconf, wf, rconf, rwid, mpretty, pok, rcons, roff, rsort, mtexts, cok = ((r or "").split("\t") + [""] * 13)[:13]
+                mview, ok, mconf, wf, rconf, rwid, mpretty, pok, rcons, roff, rsort, mtexts, cok, rfoff = ((r or "").split("\t") + [""] * 14)[:14]
                 conf_compared += len([x for x in rtext_of.get(n_, "").split(",") if x])
                 spi = self.split(answers[i])
                 # the pretty bytes the model must reproduce: print_json(pretty = true)'s own bytes whenever the view is the whole
@@ -876,6 +876,9 @@ class C15(PropBase):
                 elif ok == "1" and roff != "1":
                     what = ("module offsets: the Gallina checker [offsets_ok] (theorem c15_offsets_checker: a frame that names a module has module_offset = offset - base_addr "
                             "of a module of that name in the modules array, as numbers) rejects the real print_json document")
+                elif ok == "1" and rfoff != "1":
+                    what = ("function offsets: the Gallina judgement [fn_offsets_ok] (theorem c15_function_offsets: a frame whose function base is fb has fb <= offset and "
+                            "function_offset = offset - fb as numbers, no function base => no function_offset; threads and frames in step with the state) rejects the real print_json document")
                 elif mview != view:
                     what = "correspondence: the model's rendering of the modelled fields differs from print_json's"
                 elif mpretty != want_pretty:
